@@ -611,6 +611,7 @@ RULE = (
     "order-sensitive intermediate state (baseline with background/system adaptation), a fit() followed by default-target queries, or a system "
     "registered after other registrations."
     " Bounds of register_system are handed over as int64 arrays / lists of ints (whole numbers) or read-only float arrays; every array handed over is byte-compared after each later step."
+    " The heavy query battery contains calls with non-default arguments (explicit variance table, explicit neutral point) followed by the plain call."
 )
 
 PROP = Prop(
